@@ -79,6 +79,17 @@ def main():
         errs.append("XalanNamespacesStack::getNamespaceForPrefix not recognised")
     if "XalanNamespacesStack m_resultNamespacesStack;" not in norm(open(os.path.join(REPO, "src/xalanc/XSLT/XSLTEngineImpl.hpp"), encoding="utf-8", errors="replace").read()):
         errs.append("XSLTEngineImpl::m_resultNamespacesStack is no longer a XalanNamespacesStack")
+    el = open(os.path.join(REPO, "src/xalanc/XSLT/ElemLiteralResult.cpp"), encoding="utf-8", errors="replace").read()
+    b = body_of(el, "ElemLiteralResult::init(")
+    if b is None:
+        errs.append("ElemLiteralResult::init not found")
+    else:
+        n = norm(b)
+        new = "if (equals(aname, DOMServices::s_XMLNamespace)) { needToProcess = false; } else if (indexOfNSSep < len) {" in n
+        old = "const XalanDOMString::size_type len = length(aname); if (indexOfNSSep < len) { substring(aname, theBuffer, 0, indexOfNSSep); if (!equals(theBuffer, DOMServices::s_XMLNamespace))" in n
+        if old == new:
+            errs.append("ElemLiteralResult::init: handling of xmlns attributes not recognised")
+        flags["noXmlnsAvt"] = new
     if errs:
         print("\n".join(errs))
         return 1
